@@ -17,7 +17,7 @@ RULE = (
     "complete product (grid x mask x radius x width x position class per axis x sub-cell offset per axis) x threshold rule x intensity "
     "option; two-droplet configurations with surface gap >= 10 widths; droplets are kept inside non-periodic boxes with a margin of "
     "R + 3w; strongly non-square boxes (18x40, 40x18; thorough 12x12x30) with every straddling class; big + small pairs (R 14 / 3.2, gap 10 w); non-trivial = every case (each involves at least one least-squares fit)"
-    " plus annular grids, cylindrical z ranges excluding 0, and histories in fresh forks: all ordered pairs/triples of five intensity maps sharing one refine_args dict, and twelve analyses on one shared grid object"
+    " plus annular grids, cylindrical z ranges excluding 0, and histories in fresh forks: all ordered pairs/triples of five intensity maps sharing one refine_args dict, and twelve analyses on one shared grid object; numeric thresholds 0.1 / 0.25 / 0.75 / 0.9 of the level range with radius/width ratios down to 1.6; ordered pairs/triples of four images on equal grids analysed with two worker processes (controlled pool) in one fresh process"
 )
 ASSUMPTIONS = [
     "radius >= 3.2 cells, width 1-2 cells, mild anisotropy (1 : 1.25) as stated; recovery demanded to 1e-4 relative (position: 1e-4 dx)",
@@ -53,6 +53,10 @@ def blocks(tier, seed):
             out.append({"kind": "rect", "shape": shape, "mask": [True, True, True], "phase": ph})
     for mask in ([False, False], [True, True]):
         out.append({"kind": "bigsmall", "mask": mask, "phase": ph})
+    # numeric thresholds away from the mid level (still between the two intensity levels), incl. small droplets with wide interfaces
+    for mask in ([True, False], [False, False]):
+        out.append({"kind": "numthr", "mask": mask, "phase": ph})
+    out.append({"kind": "nproc-history", "phase": ph})
     out.append({"kind": "shared-args", "phase": ph})
     out.append({"kind": "shared-grid", "phase": ph})
     for k in ("polar", "sph"):
@@ -106,6 +110,32 @@ def cases(block):
                         for rule in RULES[:2]:
                             for it in INTENS[:1] + INTENS[5:6] + INTENS[9:]:
                                 yield {"grid": g, "drops": [[c1, R1, w1], [c2, R2, w2]], "rule": rule, "intensity": it, "classes": [cls0]}
+    elif k == "numthr":
+        for Rf, wf in ((3.2, 1.0), (3.2, 2.0), (4.0, 2.0), (4.5, 1.5), (6.0, 1.0)):
+            need = 2 * Rf + 14 * wf
+            n = int(math.ceil(need)) + 2
+            g = {"kind": "cart", "shape": [n, n + 3], "dx": [1.0, 1.0], "origin": [0.0, 0.0], "periodic": block["mask"]}
+            for cls0 in (["interior", "low"] if block["mask"][0] else ["interior"]):
+                for off in itertools.product(OFFS[:2], repeat=2):
+                    c = [((0 if cls0 == "low" else n // 2) + off[0] + ph), ((n + 3) // 2 + off[1])]
+                    for thr in (0.1, 0.25, 0.75, 0.9):
+                        if 0.5 + 0.5 * math.tanh(Rf / wf) <= thr + 0.02:
+                            continue  # the droplet's core does not exceed the threshold: not detectable by construction
+                        for it in ("standard", "affine0-supplied", "affine3-supplied-fitted"):
+                            yield {"grid": g, "drops": [[c, Rf, wf]], "rule": thr, "intensity": it, "classes": [cls0, "interior"], "numthr": True}
+        for kk, dim in (("polar", 2), ("sph", 3)):
+            g = {"kind": kk, "n": 24, "R": 24.0}
+            for Rf, wf in ((3.2, 2.0), (4.5, 1.5)):
+                for thr in (0.1, 0.25, 0.75, 0.9):
+                    yield {"grid": g, "drops": [[[0.0] * dim, Rf, wf]], "rule": thr, "intensity": "standard", "classes": ["centred"], "numthr": True}
+    elif k == "nproc-history":
+        # several different images on EQUAL grids analysed one after the other with worker processes (controlled pool of mcx/sched.py,
+        # default schedule), fresh process per sequence: every ordered pair / triple of four images
+        g = {"kind": "cart", "shape": [20, 20], "dx": [1.0, 1.0], "origin": [0.0, 0.0], "periodic": [True, False]}
+        probes = [{"grid": g, "drops": [[[6.3 + ph + 2.2 * i, 9.2 + 0.7 * i], 3.2 + 0.4 * i, 1.0 + 0.25 * (i % 2)]], "rule": 0.5, "intensity": "standard", "classes": ["interior", "interior"], "nproc": 2} for i in range(4)]
+        for n in (2, 3):
+            for idx in itertools.permutations(range(4), n):
+                yield {"plain_sequence": [probes[i] for i in idx], "nproc_history": True}
     elif k == "shared-args":
         g = {"kind": "cart", "shape": [20, 20], "dx": [1.0, 1.0], "origin": [0.0, 0.0], "periodic": [True, False]}
         its = ["standard-auto-fitted"] + [f"affine{i}-auto-fitted" for i in range(4)]
@@ -197,6 +227,16 @@ def run_case(case, ctx):
     if "plain_sequence" in case:
         from mcx import core
 
+        if case.get("nproc_history"):
+            from mcx import sched
+
+            ctx.count("worker-process-sequences")
+
+            def one(c, sub):
+                sched.install()
+                run_case(c, sub)
+
+            return core.run_sequence_in_fork(one, case["plain_sequence"], ctx, tag={"history": "worker-processes"})
         ctx.count("shared-grid-sequences")
         return core.run_sequence_in_fork(run_case, case["plain_sequence"], ctx, tag={"history": "shared-grid-object"})
     g = case["grid"]
@@ -243,7 +283,8 @@ def run_case(case, ctx):
     try:
         field = ScalarField(grid, data)
         image = field.data.tobytes()
-        em = locate_droplets(field, threshold=thr, refine=True, refine_args=args)
+        extra = {"num_processes": case["nproc"]} if case.get("nproc") else {}
+        em = locate_droplets(field, threshold=thr, refine=True, refine_args=args, **extra)
         ctx.op()
         ctx.check("C05.image-unmodified", field.data.tobytes() == image, None, tags)
     except Exception as e:  # noqa
@@ -262,6 +303,8 @@ def run_case(case, ctx):
         ctx.count("annular-grid")
     if kind == "cyl" and not (g["z"][0] <= 0 <= g["z"][1]):
         ctx.count("cylindrical-z-range-excluding-0")
+    if case.get("numthr"):
+        ctx.count("numeric-threshold-off-mid-level")
     if case.get("bigsmall"):
         ctx.count("small-droplet-within-one-big-radius-of-big-surface")
     if kind == "cart" and len(set(g["shape"])) > 1 and any(cl in ("low", "outside") for cl in case["classes"]):
@@ -288,4 +331,4 @@ def run_case(case, ctx):
 
 def expected_positive(tier):
     return ["C05.count", "C05.position", "C05.radius", "C05.width", "C05.inbox", "across-or-outside-periodic-boundary", "fitted-levels", "two-droplets",
-            "small-droplet-within-one-big-radius-of-big-surface", "straddling-on-non-square-box", "annular-grid", "cylindrical-z-range-excluding-0", "shared-options-sequences", "shared-grid-sequences"]
+            "small-droplet-within-one-big-radius-of-big-surface", "straddling-on-non-square-box", "annular-grid", "cylindrical-z-range-excluding-0", "shared-options-sequences", "shared-grid-sequences", "numeric-threshold-off-mid-level", "worker-process-sequences"]
